@@ -52,6 +52,9 @@ def lib():
         L.judge_batch.argtypes = [ctypes.c_int, ctypes.c_char_p, ctypes.c_int, ctypes.c_int, ctypes.c_int, ctypes.c_int,
                                   ctypes.c_double, ctypes.c_char_p, ctypes.c_char_p, ctypes.c_void_p, ctypes.c_int,
                                   ctypes.c_void_p, ctypes.c_int, ctypes.c_int, ctypes.c_void_p, ctypes.c_void_p, ctypes.c_void_p]
+        L.anchored_dists.restype = ctypes.c_int
+        L.anchored_dists.argtypes = [ctypes.c_char_p, ctypes.c_int, ctypes.c_int, ctypes.c_int, ctypes.c_char_p, ctypes.c_char_p,
+                                     ctypes.c_void_p, ctypes.c_int, ctypes.c_int, ctypes.c_void_p]
         _LIB = L
     return _LIB
 
@@ -166,3 +169,13 @@ def judge(rs, type_name, a, indels, min_overlap, n_wild, rate, aw, rw, mode, sta
             if f:
                 out.append((k, f, tuple(rs.adm[9 * k: 9 * k + 9]) if f >= 16 else None))
     return out
+
+
+def anchored_dists(rs, a, indels, prefix, maxn):
+    """bytes object of size rs.n*(maxn+1): distance of adapter a to the read prefix/suffix of every length (127 = impossible)."""
+    out = (ctypes.c_byte * (rs.n * (maxn + 1)))()
+    r = lib().anchored_dists(a.encode(), len(a), 1 if indels else 0, 1 if prefix else 0, eq_table(False, False), rs.blob,
+                             rs.offs, rs.n, maxn, out)
+    if r != 0:
+        raise common.HarnessError("anchored_dists: sequence too long")
+    return bytes(out)
